@@ -976,6 +976,29 @@ impl<'a> Tr<'a> {
                     }
                 }
             }
+            // self.write_uNN::<LittleEndian>(v)? : byteorder's `WriteBytesExt` over the object's own `write`
+            // (`let mut buf = [0; N]; LittleEndian::write_uNN(&mut buf, v); self.write_all(&buf)`)
+            if let (Some(t), true) = (write_int_ty(&name), matches!(&*m.receiver, Expr::Path(p) if p.path.is_ident("self"))) {
+                let st = self.s_self_ty();
+                if let Some(mi) = self.reg.methods.get(&format!("{st}::write")) {
+                    if mi.fi.mode == Mode::S && name != "write_u8" {
+                        if self.failed.contains(&format!("{st}::write")) {
+                            return Err(format!("calls the untranslated {st}::write"));
+                        }
+                        if !little_endian(m) || m.args.len() != 1 {
+                            return Err(format!("{name} without ::<LittleEndian>"));
+                        }
+                        self.expect = Some(t.into());
+                        let a = self.expr(&m.args[0])?;
+                        let le = match t { "UInt16" => "le16", "UInt32" => "le32", _ => "le64" };
+                        let t1 = self.fresh();
+                        let t2 = self.fresh();
+                        self.emit(format!("let ({t1}, {t2}) ← Rs.S.write_all (Gen.{st}.write ext) ((Rs.{le} {a}).length + 1) self (Rs.{le} {a})"));
+                        self.emit(format!("self := {t2}"));
+                        return Ok(t1);
+                    }
+                }
+            }
             // operations on the bare sink (`let writer = self.inner.get_plain()`)
             if self.s_alias_of(&m.receiver) == Some(Alias::Plain) {
                 let op: String = if name == "stream_position" && m.args.is_empty() {
@@ -1245,6 +1268,20 @@ impl<'a> Tr<'a> {
                 let n = macro_name(&m.mac);
                 if n == "unreachable" || n == "panic" {
                     self.emit("Rs.S.panic self".into());
+                    return Ok(true);
+                }
+                // assert_eq!(a, b): both evaluated (in order), a panic unless equal
+                if n == "assert_eq" {
+                    let args: punctuated::Punctuated<Expr, Token![,]> = m.mac.parse_body_with(punctuated::Punctuated::parse_terminated).map_err(|e| e.to_string())?;
+                    if args.len() != 2 {
+                        return Err("assert_eq! with a message".into());
+                    }
+                    let ty = self.type_of(&args[0]).or_else(|| self.type_of(&args[1]));
+                    self.expect = ty.clone();
+                    let a = self.expr(&args[0])?;
+                    self.expect = ty;
+                    let b = self.expr(&args[1])?;
+                    self.emit(format!("(if ({a} != {b}) then Rs.S.panic self else pure ())"));
                     return Ok(true);
                 }
                 Ok(false)
